@@ -3,6 +3,7 @@ package main
 // Verification of one function against its contract; loop cutting; frames.
 
 import (
+	"strconv"
 	"fmt"
 	"go/types"
 	"sort"
@@ -765,6 +766,20 @@ func (w *World) verifyCase(ct *Contract, caseIdx int) (res *FuncResult) {
 		}
 		if ca.K >= n {
 			panic(sfail("site obligation %s names call %d of %q, but the function has only %d such call(s)", ca.Cl.Name, ca.K, ca.Callee, n))
+		}
+	}
+	if want := ct.Extra["returns"]; len(want) > 0 {
+		// "returns N": the return-site obligations cover every way out of the function
+		n := 0
+		for _, b := range fn.Blocks {
+			for _, in := range b.Instrs {
+				if _, ok := in.(*ssa.Return); ok {
+					n++
+				}
+			}
+		}
+		if w0, err := strconv.Atoi(strings.Fields(want[0])[0]); err != nil || w0 != n {
+			panic(sfail("the contract covers %s return site(s), the function has %d", strings.Fields(want[0])[0], n))
 		}
 	}
 	if len(ct.RetAssert) > 0 {
